@@ -29,6 +29,7 @@ func init() {
 
 func rulesC18(c *Ctx) {
 	ruleC18Globals(c)
+	ruleC18SharedInstance(c)
 	ruleC18Pool(c)
 	ruleC18ReadPath(c)
 	ruleC18View(c)
@@ -280,6 +281,7 @@ func ruleC18ReadPath(c *Ctx) {
 		shared[p.Named("boltz", n)] = true
 	}
 	shared[p.Named("objectz", "ObjectStore")] = true
+	mutatorNames := map[string]bool{"Put": true, "Append": true, "Delete": true, "DeleteIf": true, "Clear": true, "Store": true, "Set": true, "Add": true, "Remove": true, "Swap": true, "CompareAndSwap": true}
 	writesShared := func(in ssa.Instruction) bool {
 		var addr ssa.Value
 		switch x := in.(type) {
@@ -287,6 +289,22 @@ func ruleC18ReadPath(c *Ctx) {
 			addr = x.Addr
 		case *ssa.MapUpdate:
 			addr = x.Map
+		case ssa.CallInstruction:
+			// a mutating method of a container held in a field of a shared object (e.g. the
+			// copy-on-write symbol map): shared state changes even though no Store is visible here
+			cc := x.Common()
+			cal, _ := calleeOf(cc)
+			if cal == nil || cc.IsInvoke() || len(cc.Args) == 0 || cal.Type().(*types.Signature).Recv() == nil || !mutatorNames[cal.Name()] {
+				return false
+			}
+			if cal.Pkg() != nil && strings.HasPrefix(cal.Pkg().Path(), modPath) {
+				return false // repository methods are analysed through their own bodies
+			}
+			fa, ok := cc.Args[0].(*ssa.FieldAddr)
+			if !ok {
+				return false
+			}
+			addr = fa
 		default:
 			return false
 		}
@@ -400,4 +418,116 @@ func lockHeldAt(p *Prog, fn *ssa.Function, at ssa.Instruction, lock, unlock stri
 	}
 	ri2 := reachWithout(fn, func(in ssa.Instruction) bool { return isLock(in, unlock, true) })
 	return !ri2.Reaches(at)
+}
+
+// ruleC18SharedInstance: a package-level variable that refers to a MUTABLE object (its type has a
+// pointer-receiver method that stores into the receiver) must not be handed out (returned or stored
+// into other objects) — every caller would then share and mutate one instance.
+func ruleC18SharedInstance(c *Ctx) {
+	p := c.P
+	mutable := func(t types.Type) (bool, string) {
+		n := namedOf(t)
+		if n == nil {
+			return false, ""
+		}
+		for i := 0; i < n.NumMethods(); i++ {
+			fn := p.SSA.FuncValue(n.Method(i))
+			if fn == nil || fn.Blocks == nil || len(fn.Params) == 0 {
+				continue
+			}
+			if _, isPtr := fn.Params[0].Type().(*types.Pointer); !isPtr {
+				continue
+			}
+			for _, b := range fn.Blocks {
+				for _, in := range b.Instrs {
+					if st, ok := in.(*ssa.Store); ok {
+						if _, base := fieldOfAddr(st.Addr); base == ssa.Value(fn.Params[0]) {
+							return true, n.Method(i).Name()
+						}
+					}
+				}
+			}
+		}
+		return false, ""
+	}
+	// dynamic type of each global from its initialiser
+	for _, short := range srcPkgs {
+		sp := p.SSAPkgs[short]
+		initFn := sp.Func("init")
+		dyn := map[*ssa.Global]types.Type{}
+		for _, b := range initFn.Blocks {
+			for _, in := range b.Instrs {
+				if st, ok := in.(*ssa.Store); ok {
+					if g, ok := st.Addr.(*ssa.Global); ok {
+						v := st.Val
+						if mi, ok := v.(*ssa.MakeInterface); ok {
+							v = mi.X
+						}
+						if call, ok := v.(*ssa.Call); ok {
+							// constructor: use its returned dynamic type when it is a single MakeInterface
+							if sc := call.Call.StaticCallee(); sc != nil && sc.Blocks != nil {
+								for _, r := range returnsOf(sc) {
+									if mi, ok := r.Results[0].(*ssa.MakeInterface); ok {
+										dyn[g] = mi.X.Type()
+									}
+								}
+							}
+						}
+						if _, ok := dyn[g]; !ok {
+							dyn[g] = v.Type()
+						}
+					}
+				}
+			}
+		}
+		for g, t := range dyn {
+			if p.isGenerated(g.Pos()) || !g.Pos().IsValid() || isSyncType(t) {
+				continue
+			}
+			if _, isPtr := t.Underlying().(*types.Pointer); !isPtr {
+				continue
+			}
+			isMut, via := mutable(t)
+			name := strings.ReplaceAll(g.String(), modPath+"/", "")
+			if !isMut {
+				c.OK("C18.SHAREDINSTANCE", name, p.Pos(g.Pos()), "refers to an object without mutating methods")
+				continue
+			}
+			// handed out?
+			leak := ""
+			for _, fn := range p.SrcFuncs(srcPkgs...) {
+				if isInitFn(fn) || p.isGenerated(fn.Pos()) {
+					continue
+				}
+				for _, b := range fn.Blocks {
+					for _, in := range b.Instrs {
+						u, ok := in.(*ssa.UnOp)
+						if !ok || u.X != ssa.Value(g) {
+							continue
+						}
+						for _, r := range *u.Referrers() {
+							switch x := r.(type) {
+							case *ssa.Return:
+								leak = "returned by " + FnName(fn)
+							case *ssa.Store:
+								if x.Val == ssa.Value(u) {
+									leak = "stored by " + FnName(fn)
+								}
+							case *ssa.MakeInterface:
+								for _, r2 := range *x.Referrers() {
+									if _, isRet := r2.(*ssa.Return); isRet {
+										leak = "returned by " + FnName(fn)
+									}
+									if st, isSt := r2.(*ssa.Store); isSt && st.Val == ssa.Value(x) {
+										leak = "stored by " + FnName(fn)
+									}
+								}
+							}
+						}
+					}
+				}
+			}
+			c.Check(leak == "", "C18.SHAREDINSTANCE", name, p.Pos(g.Pos()), "the mutable object is never handed out", "a single package-level instance of a mutable type (method "+via+" writes into it) is "+leak+": concurrent callers mutate the same object")
+		}
+	}
 }
